@@ -135,7 +135,12 @@ func partition(in json.RawMessage, res *vh.Result) error {
 	counts := func(p, k int, owner func(slot int) int) (int, int) {
 		c := make([]int, k)
 		for _, s := range codeSlots[p] {
-			c[owner(s)]++
+			o := owner(s)
+			if o < 0 || o >= k {
+				res.Violate("C35", "slot-to-node", fmt.Sprintf("SlotToNode(%d, %d) = %d is not a node of a %d-master cluster", s, k, o, k), map[string]any{"slot": s, "k": k})
+				continue
+			}
+			c[o]++
 		}
 		mn, mx := c[0], c[0]
 		for _, x := range c {
